@@ -494,6 +494,11 @@ impl Store {
         batch.insert(&self.idx_context, idx_context_key_from_frame(frame), b"");
         batch.commit()?;
         self.keyspace.persist(fjall::PersistMode::SyncAll)?;
+
+        // A registration frame makes its context usable however it got here (append or import)
+        if frame.topic == "xs.context" && frame.context_id == ZERO_CONTEXT {
+            self.contexts.write().unwrap().insert(frame.id);
+        }
         Ok(())
     }
 
